@@ -283,6 +283,189 @@ impl C19 {
     }
 }
 
+impl C19 {
+    /// The OS-interface instruction is code bytes like any other: machines with the built-in syscall handlers
+    /// installed (any subset), pipes created by earlier steps, and then `syscall` reached with every register
+    /// holding an edge, an extreme or a random value - buffer addresses on area edges, byte counts up to 2^64-1,
+    /// descriptor numbers that are, were never, or only look like pipe ends, break addresses at both ends of the
+    /// address space. Whatever the handlers make of it, the step returns.
+    fn syscall_batch(&self, k: u64, rng: &mut Rng, col: &mut Collector) {
+        use ax_x86::helpers::syscalls::Syscall;
+        const CODE_AT: u64 = 0x40_0000;
+        const D: u64 = 0x60_0000;
+        const RO: u64 = 0x70_0000;
+        for j in 0..(self.batch / 8).max(1) {
+            let nsys = rng.range(2, 9) as usize;
+            let mut code: Vec<u8> = Vec::new();
+            for _ in 0..nsys {
+                if rng.below(8) == 0 {
+                    code.push(PFX[rng.below(11) as usize]);
+                }
+                code.extend_from_slice(&[0x0f, 0x05]);
+            }
+            let mut list: Vec<Syscall> = Vec::new();
+            for (s, p) in [(Syscall::Pipe, 8u64), (Syscall::Brk, 2), (Syscall::ArchPrctl, 2), (Syscall::Exit, 3)] {
+                if rng.below(p) != 0 || (p == 8) {
+                    list.push(s);
+                }
+            }
+            if rng.below(6) == 0 {
+                list.clear();
+            }
+            let desc0 = format!("syscall machine: handlers {:?}, code {}", list, hex(&code));
+            col.publish("sys", &desc0);
+            col.progress.set_raw(1, &code);
+            let made = call(|| {
+                let mut ax = Axecutor::new(&code, CODE_AT, CODE_AT)?;
+                ax.handle_syscalls(list.clone())?;
+                ax.mem_init_zero(D, 0x1000)?;
+                ax.mem_init_zero(RO, 0x20)?;
+                ax.mem_prot(RO, 1)?;
+                Ok(ax)
+            });
+            let mut ax = match made {
+                Call::Ok(a) => a,
+                other => {
+                    if other.is_panic() {
+                        col.violation_case(&format!("panic:{}", other.panic_key()), k, format!("{} :: construction: {}", desc0, other.describe()), json!({"layout": desc0, "batch_index": j}));
+                    }
+                    col.count(&format!("sys_construct_{}", other.kind()), 1);
+                    continue;
+                }
+            };
+            let mut edges: Vec<u64> = vec![0, D, D + 0x1000, RO, RO + 0x20, CODE_AT, CODE_AT + code.len() as u64];
+            if rng.below(2) == 0 && call(|| ax.mem_init_zero(TOP - 0xfff, 0x1000)).is_ok() {
+                edges.push(TOP - 0xfff);
+                edges.push(TOP);
+            }
+            if rng.below(2) == 0 {
+                let _ = call(|| ax.init_stack(*rng.pick(&[8u64, 0x18, 0x1000])));
+                if let Ok(v) = ax.reg_read_64(SR::RSP) {
+                    edges.push(v);
+                }
+            }
+            let mut fds: Vec<u64> = vec![0, 1, 2];
+            let mut log: Vec<String> = Vec::new();
+            let mut outcome = "ok";
+            for s in 0..nsys {
+                let edge_val = |rng: &mut Rng| -> u64 {
+                    let e = *rng.pick(&edges);
+                    let d = *rng.pick(&[0i64, 0, -1, 1, -2, -4, -8, 8, -16, 16, -7, 7, -0x80, 0x7f, -0x1000, 0x800]);
+                    e.wrapping_add(d as u64)
+                };
+                for r in GPR64.iter() {
+                    if matches!(*r, iced_x86::Register::RSP) && rng.below(4) != 0 {
+                        continue;
+                    }
+                    let v = match rng.below(6) {
+                        0..=2 => edge_val(rng),
+                        3 => *rng.pick(&[0u64, 1, TOP, i64::MAX as u64, i64::MIN as u64, 0xffff_ffff, 8]),
+                        _ => rng.val(),
+                    };
+                    let _ = ax.reg_write_64(sr(*r), v);
+                }
+                // the first one or two steps usually create pipes, so that later ones meet real descriptors
+                let nr = if s < 2 && rng.below(4) != 0 {
+                    22
+                } else {
+                    match rng.below(12) {
+                        0..=2 => 0,
+                        3..=5 => 1,
+                        6 => 22,
+                        7 => 12,
+                        8 => 158,
+                        9 => 60,
+                        10 => *rng.pick(&[2u64, 3, 9, 11, 59, 231, 0xffff, 0x1_0000, 0x1_0000_0000, TOP, (1 << 32) | 1, (1 << 16) | 22]),
+                        _ => rng.below(400),
+                    }
+                };
+                let big = |rng: &mut Rng| -> u64 {
+                    match rng.below(8) {
+                        0 => TOP,
+                        1 => TOP - rng.below(0x1010),
+                        2 => 0u64.wrapping_sub(rng.below(64) * 8),
+                        3 => 1 << 63,
+                        4 => (1 << 63) + rng.below(0x1000),
+                        5 => 1 << 32,
+                        6 => i64::MAX as u64,
+                        _ => rng.val(),
+                    }
+                };
+                let (rdi, rsi, rdx) = match nr {
+                    22 => (if rng.below(4) == 0 { edge_val(rng) } else { D + rng.below(0xff0) }, rng.val(), rng.val()),
+                    0 | 1 => {
+                        let fd = match rng.below(8) {
+                            0 => rng.val(),
+                            1 => *rng.pick(&fds) | (1 << 32),
+                            2 => *rng.pick(&fds) ^ 1,
+                            _ => *rng.pick(&fds),
+                        };
+                        let buf = if rng.below(3) == 0 { D + rng.below(0x1000) } else { edge_val(rng) };
+                        let cnt = match rng.below(6) {
+                            0 | 1 => big(rng),
+                            2 => 0,
+                            3 => rng.below(0x1100),
+                            _ => rng.below(64),
+                        };
+                        (fd, buf, cnt)
+                    }
+                    12 => {
+                        // growth stays small or is beyond anything a host can allocate (and then only outside Miri)
+                        let a = match rng.below(6) {
+                            0 => 0,
+                            1 => edge_val(rng),
+                            2 if !cfg!(miri) => big(rng),
+                            _ => ax.verif_area_lengths().iter().filter_map(|(s, l)| s.checked_add(*l)).filter(|e| *e < (1 << 40)).max().unwrap_or(0x1000_0000) + rng.below(0x3000),
+                        };
+                        (a, rng.val(), rng.val())
+                    }
+                    158 => (*rng.pick(&[0x1001u64, 0x1002, 0x1003, 0x1004, 0x1005, 0, TOP]), if rng.below(2) == 0 { edge_val(rng) } else { big(rng) }, rng.val()),
+                    _ => (rng.val(), edge_val(rng), big(rng)),
+                };
+                let _ = ax.reg_write_64(SR::RAX, nr);
+                let _ = ax.reg_write_64(SR::RDI, rdi);
+                let _ = ax.reg_write_64(SR::RSI, rsi);
+                let _ = ax.reg_write_64(SR::RDX, rdx);
+                log.push(format!("syscall(rax={:#x}, rdi={:#x}, rsi={:#x}, rdx={:#x})", nr, rdi, rsi, rdx));
+                let r = call(|| block_on(ax.step()));
+                col.eval(1);
+                match &r {
+                    Call::Ok(true) => {
+                        if nr == 22 && list.contains(&Syscall::Pipe) && ax.reg_read_64(SR::RAX) == Ok(0) {
+                            if let (Ok(a), Ok(b)) = (ax.mem_read_64(rdi), ax.mem_read_64(rdi.wrapping_add(8))) {
+                                fds.push(a);
+                                fds.push(b);
+                                col.count("sys_pipes_created", 1);
+                            }
+                        }
+                    }
+                    Call::Ok(false) => {
+                        outcome = "finished";
+                        break;
+                    }
+                    Call::Err { .. } => {
+                        outcome = "err";
+                        break;
+                    }
+                    Call::Panic(p) => {
+                        col.count("panic", 1);
+                        let detail = format!("step() #{} panicked at {}:{}: {}", s, p.file, p.line, p.msg.chars().take(200).collect::<String>());
+                        col.violation_case(&format!("panic:{}", panic_sig(p)), k, format!("{} :: {} :: {}", desc0, log.join("; "), detail), json!({"layout": desc0, "batch_index": j, "calls": log, "detail": detail}));
+                        outcome = "panic";
+                        break;
+                    }
+                }
+            }
+            col.count(&format!("sys_{}", outcome), 1);
+            col.distinct_key(&format!("sys|{}|{}|{}", list.len(), fds.len(), outcome));
+            if j == 0 && col.want_sample() {
+                col.push_sample(json!({"class": "syscall-machines", "handlers": format!("{:?}", list), "calls": log, "outcome": outcome}));
+            }
+        }
+        col.set_insert("classes", "syscall-machines");
+    }
+}
+
 impl Monitor for C19 {
     fn total_cases(&self) -> u64 {
         // one case = a batch of inputs
@@ -296,6 +479,9 @@ impl Monitor for C19 {
     fn run_case(&mut self, k: u64, rng: &mut Rng, col: &mut Collector) {
         if k % 5 == 4 {
             return self.edge_batch(k, rng, col);
+        }
+        if k % 10 == 3 {
+            return self.syscall_batch(k, rng, col);
         }
         let rip = run::CODE_RIP;
         let mut pre = self.base.clone();
